@@ -1320,7 +1320,7 @@ func ruleUpdateConstDecode(c *Ctx, upd *ast.FuncDecl, sw *ast.SwitchStmt) {
 // `<expr text> > K` (K constant) that returns an error; returns K.
 func (w *World) guardLimit(p *packages.Package, stack []ast.Node, exprText string) (int64, bool) {
 	for _, g := range precedingGuards(stack) {
-		b, ok := ast.Unparen(g.Cond).(*ast.BinaryExpr)
+		b, ok := gtExpr(g.Cond)
 		if !ok || (b.Op != token.GTR && b.Op != token.GEQ) {
 			continue
 		}
@@ -1386,7 +1386,7 @@ func ruleCODEC4(c *Ctx) {
 						if !ok || !terminates(is.Body) {
 							return true
 						}
-						b, ok := ast.Unparen(is.Cond).(*ast.BinaryExpr)
+						b, ok := gtExpr(is.Cond)
 						if !ok || b.Op != token.GTR || w.Src(b.X) != target {
 							return true
 						}
@@ -1424,8 +1424,14 @@ func ruleCODEC4(c *Ctx) {
 				if !isIf || !terminates(is.Body) {
 					return false
 				}
+				// the pool size (numConstants() / len(….constants), possibly via a
+				// variable defined in the if's init) compared as the greater side
 				s := w.Src(is.Cond) + w.Src(is.Init)
-				return (strings.Contains(s, "numConstants()") || strings.Contains(s, "len(c.constants)")) && strings.Contains(s, ">")
+				if !(strings.Contains(s, "numConstants()") || strings.Contains(s, ".constants)")) {
+					return false
+				}
+				b, okb := gtExpr(is.Cond)
+				return okb && (b.Op == token.GTR || b.Op == token.GEQ)
 			})
 			return ok, "the whole-file arm of Compile rejects constant pools that do not fit two bytes"
 		},
@@ -1533,7 +1539,7 @@ func ruleCODEC4(c *Ctx) {
 					if !ok || !terminates(is.Body) {
 						return false
 					}
-					b, ok := ast.Unparen(is.Cond).(*ast.BinaryExpr)
+					b, ok := gtExpr(is.Cond)
 					if !ok || b.Op != token.GTR || !strings.HasPrefix(w.Src(b.X), "len(freeSymbols") {
 						return false
 					}
